@@ -8,7 +8,8 @@ Scheduler for dispatch) and, after every transaction, runs the code's own consis
 the invariants of the property read directly from the tables.
 
 World: plan.py (static, boot step ./plan.py), a static input s.txt, step A: s.txt -> o.txt, step B: o.txt -> r.txt.
-The plan script has three versions (A and B; A only; B first and A's output declared by amendment).
+The plan script has five versions (A and B; A only; B first and A's output declared by amendment; a step D on an
+undeclared input; a step E that would close a dependency cycle with D, declared before D).
 
 Operations (each is what the director, the executor or the watcher does, in the transactions they use):
   run        pop the next job from the real scheduler and carry it out successfully (plan step: run the script)
@@ -47,6 +48,7 @@ class World:
         self.m = m
         self.version = 0
         self.counter = 0
+        self.plan_dirty = False
 
     # ----- helpers
 
@@ -160,12 +162,21 @@ class World:
     def plan_script(self, plan):
         wf, m = self.wf, self.m
         Step = m["step"].Step
-        v = self.version % 3
+        v = self.version % 5
+        if v == 1:
+            # D consumes h.txt, which nothing declares, and builds k.txt
+            wf.define_step(plan, "D", inp_paths=["h.txt"], out_paths=["k.txt"])
+            return
+        if v == 2:
+            # E would close the cycle h -> D -> k -> E -> h with D (also when D is detached at that moment)
+            wf.define_step(plan, "E", inp_paths=["k.txt"], out_paths=["h.txt"])
+            wf.define_step(plan, "D", inp_paths=["h.txt"], out_paths=["k.txt"])
+            return
         wf.declare_static_files(plan, ["s.txt"])
         if v == 0:
             wf.define_step(plan, "A", inp_paths=["s.txt"], out_paths=["o.txt"])
             wf.define_step(plan, "B", inp_paths=["o.txt"], out_paths=["r.txt"])
-        elif v == 1:
+        elif v == 3:
             wf.define_step(plan, "A", inp_paths=["s.txt"], out_paths=["o.txt"])
         else:
             wf.define_step(plan, "B", inp_paths=["o.txt"], out_paths=["r.txt"])
@@ -205,7 +216,16 @@ class World:
             if job is None:
                 return
             step = job.step
-            if await self.read(step.get_state) == E.StepState.CHECKING:
+            checking = await self.read(step.get_state) == E.StepState.CHECKING
+            if checking and step.label == "./plan.py" and self.plan_dirty and name in ("run", "fail"):
+                # the executor finds the input digest changed (plan.py was edited): reset, then the step runs
+                def reset0():
+                    step.reset_for_rerun()
+                    step.delete_hash()
+                    step.set_state(E.StepState.PENDING)
+                await self.tx(reset0)
+                checking = False
+            if checking:
                 if name == "skipcheck":
                     def reset():
                         step.reset_for_rerun()
@@ -231,6 +251,7 @@ class World:
             await self.tx(step.reset_for_rerun)
             ok = name == "run"
             if step.label == "./plan.py":
+                self.plan_dirty = False
                 # each RPC request of the script is a transaction of its own; a rejected one fails the step
                 try:
                     async with self.db:
@@ -256,6 +277,7 @@ class World:
             await self.tx(complete)
         elif name == "edit":
             self.version += 1
+            self.plan_dirty = True
             if await self.read(lambda: self.state_of("plan.py")) in (FS.CONFIRMED, FS.MISSING):
                 await self.tx(lambda: wf.update_file_hashes({"plan.py": self.fh("plan")}, cause=Cause.EXTERNAL))
         elif name in ("touch", "rm_s", "rm_o"):
@@ -326,7 +348,7 @@ def run_histories(histories, workers=16):
 @bounded("committed_states", props=["C09"],
          bound="exhaustive: every sequence of 9 director-level operations (run / fail / skipcheck a popped job, edit the "
                "plan, touch / delete files, confirm, clean) of length <= 4 (quick) / <= 6 (thorough) after boot and the "
-               "first plan run, on a world of one plan with three script versions, two steps and three files; after "
+               "first plan run, on a world of one plan with five script versions, four steps and five files; after "
                "every transaction the code's strict consistency check and the property's invariants read from the tables")
 def committed_states(tier, seed):
     depth = 4 if tier == "quick" else 6
